@@ -8,6 +8,7 @@
 #include "private_access.h"
 #include <unistd.h>
 #include <sys/wait.h>
+#include <sys/resource.h>
 #include "momo/HashSet.h"
 #include "momo/HashMap.h"
 #include "momo/TreeSet.h"
@@ -23,17 +24,42 @@ typedef HashSet<int, HashTraits<int>, MMD, HashSetItemTraits<int, MMD>, HSS> HS;
 typedef HashMap<int, int, HashTraits<int>, MMD, HashMapKeyValueTraits<int, int, MMD>, HMS> HM;
 typedef TreeSet<int, TreeTraits<int>, MMD, TreeSetItemTraits<int, MMD>, TSS> TS;
 typedef TreeMap<int, int, TreeTraits<int>, MMD, TreeMapKeyValueTraits<int, int, MMD>, TMS> TM;
+// coverage-audit configurations: open-addressing buckets, tiny tree nodes (capacity 4: splits / merges / multi-level trees with few items),
+// non-default binary search in nodes
+typedef HashSet<int, HashTraitsOpen<int>, MMD, HashSetItemTraits<int, MMD>, HSS> HO;
+typedef TreeTraits<int, false, TreeNode<4, 2>, false> SmallTreeTraits;
+typedef TreeSet<int, SmallTreeTraits, MMD, TreeSetItemTraits<int, MMD>, TSS> TN;
+typedef TreeMap<int, int, SmallTreeTraits, MMD, TreeMapKeyValueTraits<int, int, MMD>, TMS> TNM;
+
+// the INTENDED classes are really instantiated (private typedefs are visible here)
+static_assert(HS::Settings::checkMode == CheckMode::exception && HS::Settings::checkVersion, "exception mode + versions");
+static_assert(TS::Settings::checkMode == CheckMode::exception && TS::Settings::checkVersion, "exception mode + versions");
+static_assert(HM::HashSet::Settings::checkMode == CheckMode::exception && HM::HashSet::Settings::checkVersion, "nested set of HashMap");
+static_assert(TM::TreeSet::Settings::checkMode == CheckMode::exception && TM::TreeSet::Settings::checkVersion, "nested set of TreeMap");
+static_assert(HS::Crew::keepVersion && TS::Crew::keepVersion && HO::Crew::keepVersion && TN::Crew::keepVersion, "pointer crew with a version cell");
+static_assert(HS::ConstPosition::checkVersion && TS::ConstIterator::checkVersion, "iterators carry a real VersionKeeper");
+static_assert(std::is_same<HS::Bucket, internal::BucketLimP4<internal::HashSetBucketItemTraits<HashSetItemTraits<int, MMD>>, 4, MemPoolParams<32, 16>, false>>::value, "default bucket = LimP4");
+static_assert(std::is_same<HO::Bucket, internal::BucketOpen8<internal::HashSetBucketItemTraits<HashSetItemTraits<int, MMD>>>>::value, "open configuration really uses BucketOpen8");
+static_assert(TS::Node::maxCapacity == 32 && TN::Node::maxCapacity == 4 && TNM::TreeSet::Node::maxCapacity == 4, "node capacities");
+static_assert(!HS::areItemsNothrowRelocatable, "LimP4 buckets may allocate on Add: growth relocates through the fallible path (pvFind walks bucket generations)");
+static_assert(HO::areItemsNothrowRelocatable, "open buckets + int keys: the nothrow relocation path");
 
 static size_t version(const HS& c) { return c.mCrew.mData->version; }
 static size_t version(const TS& c) { return c.mCrew.mData->version; }
 static size_t version(const HM& c) { return c.mHashSet.mCrew.mData->version; }
 static size_t version(const TM& c) { return c.mTreeSet.mCrew.mData->version; }
+static size_t version(const HO& c) { return c.mCrew.mData->version; }
+static size_t version(const TN& c) { return c.mCrew.mData->version; }
+static size_t version(const TNM& c) { return c.mTreeSet.mCrew.mData->version; }
 
 template<class C> struct Traits;
 template<> struct Traits<HS> { static const bool tree = false, map = false; };
 template<> struct Traits<HM> { static const bool tree = false, map = true; };
 template<> struct Traits<TS> { static const bool tree = true, map = false; };
 template<> struct Traits<TM> { static const bool tree = true, map = true; };
+template<> struct Traits<HO> { static const bool tree = false, map = false; };
+template<> struct Traits<TN> { static const bool tree = true, map = false; };
+template<> struct Traits<TNM> { static const bool tree = true, map = true; };
 
 static int val(int k) { return k * 10 + 1; }
 
@@ -46,8 +72,12 @@ template<class C> struct Run
 	std::map<int, H> hs;
 	std::map<int, bool> known;     // hash: does the model know which element the handle points at
 	std::string out;
+	typedef decltype(std::declval<C&>().Extract(std::declval<H>())) Ext;
+	std::unique_ptr<Ext> stash;    // the item taken out by the last accepted `extract` (re-inserted by insext / addatext)
 
 	static int keyOf(const H& h) { if constexpr (map) return h->key; else return *h; }
+	static int extKey(const Ext& e) { if constexpr (map) return e.GetKey(); else return e.GetItem(); }
+	int nExt = 0;
 	std::vector<int> contents(int i)
 	{
 		std::vector<int> v;
@@ -122,8 +152,9 @@ template<class C> struct Run
 		else if (name == "extract")
 		{
 			int i = a[0] ? 1 : 0; int got = -1;
-			call([&] { auto ext = C0(0).Extract(slot(a[1]));
+			call([&] { Ext ext = C0(0).Extract(slot(a[1]));
 				if constexpr (map) got = ext.GetKey(); else got = ext.GetItem();
+				stash.reset(new Ext(std::move(ext)));
 				return eq(got); },
 				[&, i] { twin[i].erase(got); });
 		}
@@ -151,6 +182,41 @@ template<class C> struct Run
 				else { auto r = C0(0).Insert(k); slot(a[2]) = r.position; inserted = r.inserted; }
 				known[a[2]] = true; return eq(inserted); },
 				[&, i, k] { twin[i].insert(k); });
+		}
+		else if (name == "insext")      // Insert(ExtractedItem&&) when an extracted item with this key is stashed, else Insert(key)
+		{
+			int i = a[0] ? 1 : 0, k = int(a[1]);
+			bool useExt = stash && !stash->IsEmpty() && (map ? extKey(*stash) : extKey(*stash)) == k;
+			call([&] {
+				bool inserted;
+				if (useExt) { auto r = C0(0).Insert(std::move(*stash)); slot(a[2]) = r.position; inserted = r.inserted; }
+				else if constexpr (map) { auto r = C0(0).Insert(k, val(k)); slot(a[2]) = r.position; inserted = r.inserted; }
+				else { auto r = C0(0).Insert(k); slot(a[2]) = r.position; inserted = r.inserted; }
+				known[a[2]] = true; return eq(inserted); },
+				[&, i, k] { twin[i].insert(k); });
+			if (useExt) out += "", nExt++;
+		}
+		else if (name == "addatext")    // Add(pos, ExtractedItem&&) when stashed, else Add(pos, key)
+		{
+			int i = a[0] ? 1 : 0, k = int(a[2]);
+			bool useExt = stash && !stash->IsEmpty() && extKey(*stash) == k;
+			call([&] {
+				H h;
+				if (useExt) h = C0(0).Add(slot(a[1]), std::move(*stash));
+				else if constexpr (map) h = C0(0).Add(slot(a[1]), k, val(k)); else h = C0(0).Add(slot(a[1]), k);
+				slot(a[1]) = h; known[a[1]] = true; return std::string(); },
+				[&, i, k] { twin[i].insert(k); });
+			if (useExt) nExt++;
+		}
+		else if (name == "moveto")      // c[dst] = std::move(c[src]); c[src] = C();   (handles of the source follow the contents)
+		{
+			int s = a[0] ? 1 : 0, d = 1 - s;
+			call([&] { c[d] = std::move(c[s]); c[s] = C(); return std::string(); }, [&, s, d] { twin[d] = twin[s]; twin[s].clear(); });
+		}
+		else if (name == "copyto")      // c[dst] = c[src]   (the destination gets a new version cell; source handles stay with the source)
+		{
+			int s = a[0] ? 1 : 0, d = 1 - s;
+			call([&] { c[d] = c[s]; return std::string(); }, [&, s, d] { twin[d] = twin[s]; });
 		}
 		else if (name == "insmany")
 		{
@@ -241,6 +307,9 @@ static std::string dispatch(const std::string& line)
 	if (kind == "hm") return runCase<HM>(is);
 	if (kind == "ts") return runCase<TS>(is);
 	if (kind == "tm") return runCase<TM>(is);
+	if (kind == "ho") return runCase<HO>(is);
+	if (kind == "tn") return runCase<TN>(is);
+	if (kind == "tnm") return runCase<TNM>(is);
 	return "?kind";
 }
 
@@ -255,6 +324,11 @@ int main()
 		pid_t pid = fork();
 		if (pid == 0)
 		{
+			// a runaway case (e.g. a mutant that loops or reserves without bound) must not take the machine down
+#if !defined(__SANITIZE_ADDRESS__)
+			struct rlimit rl; rl.rlim_cur = rl.rlim_max = rlim_t(2) << 30; setrlimit(RLIMIT_AS, &rl);
+#endif
+			alarm(30);
 			close(fd[0]);
 			std::string res = dispatch(line);
 			if (write(fd[1], res.data(), res.size()) < 0) _exit(4);
